@@ -31,6 +31,7 @@ EXTENDS BigZ, FiniteSets, TLC, Json
 CONSTANTS Ks,          \* exponents of the Integer boundaries
           SKs,         \* exponents of the machine-integer boundaries (< 31)
           GroupSize,   \* constants per program
+          Rich,        \* TRUE: five printed values per constant, FALSE: three
           Stride,      \* keep the groups g with (g + Offset) % Stride = 0  (1 = all)
           Offset
 
@@ -76,8 +77,10 @@ BIFun(name, c) ==
 (* (a Java method holds at most 64 KB of code and at -Q5 and above all output statements of a program are inlined  *)
 (*  into one method -- a recorded finding --, so a program carries about 25 printed values)                        *)
 BILines(c, fi) ==
-  << PrintLn(<<Lit("bi", c), Sp, Prim("bi.sub", <<Lit("bi", c), Var("one")>>), Sp, Prim("bi.mul", <<Var("m3"), Lit("bi", c)>>), Sp,
-               Prim("bi.quo", <<Lit("bi", c), Var("q7")>>), Sp, Call(fi, <<Var("q7")>>)>>) >>
+  IF Rich
+  THEN << PrintLn(<<Lit("bi", c), Sp, Prim("bi.sub", <<Lit("bi", c), Var("one")>>), Sp, Prim("bi.mul", <<Var("m3"), Lit("bi", c)>>), Sp,
+                    Prim("bi.quo", <<Lit("bi", c), Var("q7")>>), Sp, Call(fi, <<Var("q7")>>)>>) >>
+  ELSE << PrintLn(<<Lit("bi", c), Sp, Prim("bi.mul", <<Var("m3"), Lit("bi", c)>>), Sp, Call(fi, <<Var("q7")>>)>>) >>
 
 BIProg(n) ==
   LET cs == GroupOf(BISeq, n) IN
@@ -92,9 +95,11 @@ SIFun(name, c) ==
   [name |-> name, ps |-> <<"x">>, pts |-> <<"si">>, rt |-> "si", pure |-> TRUE,
    body |-> Prim(Inward(c), <<Lit("si", c), Var("x")>>)]
 SILines(c, fi) ==
-  << PrintLn(<<Lit("si", c), Sp, Prim(Inward(c), <<Lit("si", c), Var("one")>>), Sp,
-               Prim("si.quo", <<Lit("si", c), Var("q7")>>), Sp,
-               Prim("bi.mul", <<Prim("si.tobi", <<Lit("si", c)>>), Var("big")>>), Sp, Call(fi, <<Var("q7")>>)>>) >>
+  IF Rich
+  THEN << PrintLn(<<Lit("si", c), Sp, Prim(Inward(c), <<Lit("si", c), Var("one")>>), Sp,
+                    Prim("si.quo", <<Lit("si", c), Var("q7")>>), Sp,
+                    Prim("bi.mul", <<Prim("si.tobi", <<Lit("si", c)>>), Var("big")>>), Sp, Call(fi, <<Var("q7")>>)>>) >>
+  ELSE << PrintLn(<<Lit("si", c), Sp, Prim("bi.mul", <<Prim("si.tobi", <<Lit("si", c)>>), Var("big")>>), Sp, Call(fi, <<Var("q7")>>)>>) >>
 SIProg(n) ==
   LET cs == GroupOf(SISeq, n) IN
   [id |-> "L_si" \o ToString(n), seed |-> 0, feat |-> <<"lits">>, recs |-> <<>>, uns |-> <<>>,
